@@ -428,6 +428,7 @@ nni_aio_start(nni_aio *aio, nni_aio_cancel_fn cancel, void *data)
 		aio->a_abort     = false;
 		aio->a_expire_ok = false;
 		aio->a_count     = 0;
+		aio->a_result    = aio->a_abort_result;
 		NNI_ASSERT(aio->a_result != NNG_OK);
 		NNI_VERIF_TRACE("aio", aio, "start",
 		    "\"out\":\"aborted\"," AIO_ST, AIO_ST_ARGS(aio));
@@ -486,8 +487,11 @@ nni_aio_abort(nni_aio *aio, nng_err rv)
 		if (fn == NULL) {
 			// We haven't been scheduled yet,
 			// so make sure that schedule will abort.
-			aio->a_abort  = true;
-			aio->a_result = rv;
+			// The result of an operation that has already
+			// completed must not be disturbed, so the code is
+			// kept aside until the next start.
+			aio->a_abort        = true;
+			aio->a_abort_result = rv;
 		}
 		NNI_VERIF_TRACE("aio", aio, "abort",
 		    "\"rv\":%d,\"took\":%d," AIO_ST, (int) rv, fn != NULL,
